@@ -262,6 +262,15 @@ func c06Case(unit string, E uint16, phase int64, interf string) (string, *TimedC
 		tc.Steps = append(tc.Steps, TStep{At: tb + 100*ms, Client: 1, Cmd: hapi.Cmd{Type: 1, Req: 2, Key: 1, Id: 2, Timeout: 0xffff, TimeoutFlag: fMinute, Expried: 1}})
 		tc.Expect = []Expect{ex, {Req: 2, Kind: "granted", Lo: En - 100*ms, Hi: hi}}
 		tc.Horizon += 4 * sec
+	case "co-holder-stays":
+		// a counting key (Count 1) with two holders and a queued third request: when ONE hold expires while the
+		// other stays, the freed slot is served exactly as after an unlock
+		tc.Steps[0].Cmd.Count = 1
+		tc.Steps = append(tc.Steps,
+			TStep{At: tb + 10*ms, Client: 1, Cmd: hapi.Cmd{Type: 1, Req: 4, Key: 1, Id: 4, Expried: 0xffff, ExpriedFlag: fUnlim, Count: 1}},
+			TStep{At: tb + 100*ms, Client: 2, Cmd: hapi.Cmd{Type: 1, Req: 2, Key: 1, Id: 2, Timeout: 0xffff, TimeoutFlag: fMinute, Expried: 1, Count: 1}})
+		tc.Expect = []Expect{ex, {Req: 2, Kind: "granted", Lo: En - 100*ms, Hi: hi}}
+		tc.Horizon += 4 * sec
 	case "granted-after-wait":
 		// the hold is granted out of the wait queue 3.5 s after it was requested: the period runs from the grant
 		tc.Steps = []TStep{holder(4, 1500*ms), {At: tb, Client: 1, Cmd: hapi.Cmd{Type: 1, Req: 1, Key: 1, Id: 2, Timeout: 30, Expried: E, ExpriedFlag: unitFlag(unit)}},
@@ -375,6 +384,7 @@ func c06Cases(quick bool) []EnumCase {
 			add("s", E, ph, "none")
 			if E <= 40 {
 				add("s", E, ph, "waiter-granted-at-expiry")
+				add("s", E, ph, "co-holder-stays")
 			}
 		}
 	}
@@ -416,6 +426,7 @@ func c06Cases(quick bool) []EnumCase {
 			if E >= 999 {
 				add("ms", E, ph, "unlock-before")
 				add("ms", E, ph, "waiter-granted-at-expiry")
+				add("ms", E, ph, "co-holder-stays")
 			}
 			if E >= 999 && E <= 4999 {
 				for _, in := range []string{"relock-restarts", "update-lengthens", "update-shortens", "unlimited", "granted-after-wait", "relock-in-seconds"} {
